@@ -219,6 +219,7 @@ CLAIMS['C12'] = dict(
          'Settings::userDefines into DUI::defines and Settings::userUndefs into DUI::undefined on every path; every insertion into the macro table of simplecpp::preprocess is guarded by a '
          'lookup in DUI::undefined (for a predefined macro: of that name); the loops over the configurations of a file end early only under the terminate test or the '
          '!force && n > maxConfigs test; the configuration enumerator receives -D and -U for the main file and for every included file and passes the -U set to every condition it reads. '
+         'the key of the duplicate-configuration purge (TokenList::calculateHash) reads text, binding, classification, flags and original name of every token. '
          'One defect was repaired (predefined macros ignored -U).',
     design='3/C12 and 8.2', note='Which configurations Preprocessor::getConfigs enumerates for a given conditional structure, the configuration strings, and simplecpp\'s evaluation of '
                                  'conditions are value dependent and not decided.')
@@ -238,7 +239,8 @@ CLAIMS['C32'] = dict(
               'against the parser branches, must-analysis of the FileSettings -> Settings transfer before the per-file CppCheck is constructed',
     text='Decides that the options of a compilation-database entry are carried to the analysis (necessary conditions): every FileSettings appended by importCompileCommands has passed '
          'ImportProject::parseArgs, and the "arguments" form and the "command" form fill the same argument vector; for -I, -D, -U and -std the parser branch stores into a FileSettings member and '
-         'CppCheck::check(const FileSettings&) transfers that member into Settings::includePaths / userDefines / userUndefs / standards before every per-file CppCheck is built.',
+         'CppCheck::check(const FileSettings&) transfers that member into Settings::includePaths / userDefines / userUndefs / standards before every per-file CppCheck is built; '
+         'every entry\'s include paths are resolved against that entry\'s own directory; no accepted option spelling is a prefix of an absolute path (four known findings: /I /D /U /std:).',
     design='3/C32', note='Shell unquoting of the command string, option spelling variants, relative-path resolution and the "no others" clause are input/output behaviour of a hand-written '
                          'parser on arbitrary strings and are not decided.')
 
